@@ -5,6 +5,7 @@ live object) is checked after every step.  See DESIGN.md §4.3 (incl. the honest
 statement about how well this property fits the technique)."""
 import copy
 import json
+import re
 
 from . import gen as G
 from . import child, digest as D
@@ -81,7 +82,20 @@ def built_spec(rng, pool):
             o["args"] = [val() for _ in range(rng.randint(0, 2))]
             o["kwargs"] = [[k, val()] for k in rng.sample(G.KWKEYS, rng.randint(0, 2))]
         ops.append(o)
-    used = [n for n in names if any(n in json.dumps(o) for o in ops)]
+    mentioned = set()
+
+    def collect(v):
+        if isinstance(v, dict) and v.get("t") == "sym":
+            mentioned.update(n for n in v["names"] if re.search(r"\b%s\b" % re.escape(n), v["e"]))
+        elif isinstance(v, dict) and v.get("t") == "list":
+            for x in v["v"]:
+                collect(x)
+    for o in ops:
+        for a in o.get("args") or []:
+            collect(a)
+        for _, a in o.get("kwargs") or []:
+            collect(a)
+    used = [n for n in names if n in mentioned]
     spec = {"name": "built", "ops": ops, "params": used}
     if rng.random() < 0.5:
         spec["target"] = rng.choice(G.DEVICES)
@@ -339,8 +353,10 @@ def run(plan, ctx):
             # the caller's array follows is not a statement about programs (the sibling
             # instance and the template, however, must not follow)
             allowed |= values_of.get(st["obj"], set())
-            had_mut = True
-            mutated.add(st["obj"])
+            if ev.get("ok", True) and objs.get(st["obj"]) != model.get(st["obj"]):
+                had_mut = True
+                mutated.add(st["obj"])
+                bump("mut_effective:" + st["how"]["kind"])
             bump("mut:" + st["how"]["kind"])
         elif op in child.LOAD_OPS:
             if ev.get("feat"):
@@ -451,13 +467,29 @@ def _describe(st):
 
 
 def effectiveness(total, tier):
+    """A batch that did not really exercise anything must not pass as 'held'."""
+    steps = total.get("steps", 0)
+    if steps < 3000:
+        return None
+    problems = []
     need = ["probe:digraph_on_argless_program", "probe:failing_call_after_successful_call",
-            "probe:match_succeeded", "raised:call"]
-    if tier == "thorough" or total.get("steps", 0) > 20000:
-        missing = [k for k in need if not total.get(k)]
-        if missing:
-            return "reach probes stuck at zero: %s" % missing
-    return None
+            "probe:match_succeeded", "raised:call", "probe:repeated_call_compared"]
+    problems += ["reach probe stuck at zero: " + k for k in need if not total.get(k)]
+    # harness-side steps that fail wholesale (e.g. because a private attribute the
+    # harness pokes was renamed) would make part of the workload vacuous
+    for op in ("build", "loads", "mkarray"):
+        n, bad = total.get("op:" + op, 0), total.get("raised:" + op, 0)
+        if n >= 50 and bad > 0.5 * n:
+            problems.append("%d of %d '%s' steps raised" % (bad, n, op))
+    wasted = total.get("raised_type:LookupError", 0) + total.get("raised_type:AttributeError", 0)
+    if wasted > 0.3 * steps:
+        problems.append("%d of %d steps were wasted on missing objects/attributes" % (wasted, steps))
+    if not any(k.startswith("mut_effective:") for k in total):
+        problems.append("no mutation changed its target")
+    for k, v in total.items():
+        if k.startswith("fault_configured:") and v >= 30 and not total.get("fault_fired:" + k.split(":", 1)[1]):
+            problems.append("fault kind %s was configured %d times and never fired" % (k.split(":", 1)[1], v))
+    return "; ".join(problems) or None
 
 
 def describe():
